@@ -750,6 +750,15 @@ func streamC01(c *Ctx) {
 		}
 		p, ok := prepare(src)
 		if !ok {
+			if isScopeError(lastStatic.class) && !hugeNumRe.MatchString(src) {
+				// the compiler rejected the program for an unbound name: the model judges its scoping
+				if !seen["static\x00"+src] {
+					seen["static\x00"+src] = true
+					c.Emit("(static %s %s)", lastStatic.ast, srcChunks(src))
+					c.Count(kind + ":static-" + lastStatic.class)
+				}
+				return
+			}
 			c.Count(kind + "-noparse")
 			if kind == "rand" && len(noparse) < 40 {
 				noparse = append(noparse, src)
